@@ -64,8 +64,8 @@ for d, pid, x, rnd in dirs:
         "round": rnd,
         "property": pid,
         "title": title,
-        "clause_broken": para(notes, r"^[#*\s]*(property |which )?clause (is )?(broken|breaks)"),
-        "needs_to_manifest": para(notes, r"^[#*\s]*(what is )?need(ed|s) to manifest|^[#*\s]*what it needs|^[#*\s]*(what is )?needed (in order )?to manifest"),
+        "clause_broken": para(notes, r"^[#*\s]*(property |which )?clause (of the property )?(that |is )?(broken|breaks)"),
+        "needs_to_manifest": para(notes, r"^[#*\s]*(what is )?need(ed|s) (for it )?to manifest|^[#*\s]*what it needs|^[#*\s]*(what is )?needed (in order |for it )?to manifest"),
         "files_touched": sorted(set(re.findall(r"^\+\+\+ b/(\S+)", open(os.path.join(d, "patch.diff")).read(), re.M))),
         "demonstration": {"file": demo, "package": c.get("demo_package"), "test": c.get("demo_test")},
         "confirmed_by_us": {
